@@ -21,7 +21,7 @@ from bsvc.values import Unsupported                                             
 
 DROPPED_BY_EXTRACTION = [
     'docstrings and comments',
-    'print / logging.* / warnings.warn / sys.stderr.write calls (argument expressions not evaluated); an `if` statement whose only body is such a call and whose test is outside the subset is dropped with it',
+    'print / logging.* / warnings.warn / sys.stderr.write calls (their output is dropped; argument expressions containing an operator or a call are evaluated for the exceptions they can raise, what is outside the subset inside them is ignored); an `if` statement whose only body is such a call and whose test is outside the subset is dropped with it',
     'import and cimport statements (names resolve through a fixed table of known modules)',
     'GIL / nogil annotations, reference counting, allocation failure',
     'pointer-view casts of one buffer (<double*> a.data is the array a); value-changing casts are kept',
